@@ -73,7 +73,9 @@ def build_cli(repo, spec_dir, chunk=1, canary=False):
     b.emit('impl RegExpBuilder {')
     B.emit_setters(b)
     b.emit('''    #[verifier::external_body]
-    pub fn from(test_cases: &Vec<String>) -> (r: Self) ensures r.config == default_config(), r.test_cases@ == test_cases@ { unimplemented!() }
+    pub fn from(test_cases: &Vec<String>) -> (r: Self)
+        requires test_cases@.len() > 0        // the documented panic of the library (unit builder: from.empty_list_panics); the CLI must never reach it (C12)
+        ensures r.config == default_config(), r.test_cases@ == test_cases@ { unimplemented!() }
     #[verifier::external_body]
     pub fn with_syntax_highlighting(&mut self) -> (r: &mut Self)
         ensures r.config == set_color(old(self).config), r.test_cases == old(self).test_cases, *final(r) == *final(self) { unimplemented!() }
@@ -108,8 +110,19 @@ def build_cli(repo, spec_dir, chunk=1, canary=False):
         cls.append(Clause('cli.chunk%d.test_cases' % n, 'final(builder).test_cases == old(builder).test_cases', ['C12']))
         b.slice_fn('handle_input_chunk%d' % n, 'pub fn handle_input_chunk%d(cli: &Cli, builder: &mut RegExpBuilder)' % n, '\n'.join('    ' + s for s in ch),
                    'main.rs::handle_input statements %d..%d' % (n * chunk + 1, n * chunk + len(ch)), requires=req, clauses=cls, props=['C07', 'C12'])
-    b.slice_fn('handle_input_first', 'pub fn handle_input_first(test_cases: Vec<String>) -> (builder: RegExpBuilder)', '    ' + first + '\n    builder',
-               'main.rs::handle_input first statement', clauses=[Clause('cli.first', 'builder.config == default_config() && builder.test_cases@ == test_cases@', ['C12'])], props=['C07'])
+    # everything of the Ok arm in front of the flag mapping: the guard(s) against unusable input and the construction of the builder
+    arm, _, _ = X.block_after(hi, 'Ok(test_cases) => ')
+    inner = arm[1:-1]
+    sts = [inner[x:y] for (x, y) in L.split_stmts(inner)]
+    k = [i for i, t in enumerate(sts) if t.strip().startswith('let mut builder = RegExpBuilder::from(')]
+    if not k: raise X.LostAnchor('main.rs::handle_input construction of the builder')
+    head = '\n'.join('    ' + t.strip() for t in sts[:k[0] + 1])
+    b.emit('pub struct VxError { pub x: u8 }\n#[verifier::external_body] pub fn vx_error(msg: &str) -> (r: VxError) { unimplemented!() }')
+    b.slice_fn('handle_input_first', 'pub fn handle_input_first(test_cases: Vec<String>) -> (r: Result<RegExpBuilder, VxError>)', head + '\n    Ok(builder)',
+               'main.rs::handle_input Ok arm up to the construction of the builder', props=['C07', 'C12'],
+               clauses=[Clause('cli.first', 'r is Ok ==> r->Ok_0.config == default_config() && r->Ok_0.test_cases@ == test_cases@', ['C12']),
+                        Clause('cli.unusable_input_is_an_error_not_a_panic', '(test_cases@.len() == 0 ==> r is Err) && (test_cases@.len() > 0 ==> r is Ok)', ['C12', 'C07'])],
+               extra_rules=[('R19', r'Err\(("(?:[^"\\\\]|\\\\.)*")\.into\(\)\)', r'Err(vx_error(\1))', '&str -> Box<dyn Error> (opaque error value)')])
     # threshold parser
     b.emit('pub uninterp spec fn parse_u32_spec(s: Seq<char>) -> Option<u32>;\n#[verifier::external_body] pub fn vx_parse_u32(s: &str) -> (r: Result<u32, ()>) ensures r is Ok ==> parse_u32_spec(s@) == Some(r->Ok_0) { unimplemented!() }')
     b.verified_fn('main.rs', 'repetition_options_parser', props=['C07'], fname='repetition_options_parser',
